@@ -213,3 +213,90 @@ func vCheckChanges(A, B vVer, gotK, gotB []int64) {
 		}
 	}
 }
+
+// vChangesScan runs one query over a changes table: Open, Filter, then the
+// Eof/Column/Next loop.
+func vChangesScan(ct *ChangesTable) (gotK, gotB []int64, ok bool) {
+	cur, err := ct.Open()
+	if err != nil {
+		return nil, nil, false
+	}
+	if err := cur.Filter(0, ""); err != nil {
+		return nil, nil, false
+	}
+	for n := 0; !cur.Eof(); n++ {
+		symAssert(n <= 4, "changes-cursor-terminates")
+		c0, c1 := symSQLContext(), symSQLContext()
+		if cur.Column(c0, 0) != nil || cur.Column(c1, 1) != nil {
+			return nil, nil, false
+		}
+		_, p, _ := symSQLResult(c0)
+		k1, p1, _ := symSQLResult(c1)
+		gotK = append(gotK, p.(int64))
+		if k1 == rINT {
+			gotB = append(gotB, p1.(int64))
+		} else {
+			gotB = append(gotB, -1)
+		}
+		if cur.Next() != nil {
+			return nil, nil, false
+		}
+	}
+	return gotK, gotB, true
+}
+
+// H12b: a changes table created without to= compares with the current
+// version of the table, whatever it is when the query runs: the same changes
+// table is queried again after every further commit of the connection.
+func VerifH_C12_to_current() {
+	bkt := vNewBucket()
+	symS3Register(bkt.client(1))
+	c := vConnect()
+	vt, err := c.vTable("t", false)
+	symAssert(err == nil, "table-ok")
+	steps := symParam("steps", 3)
+	var ct *ChangesTable
+	var A vVer
+	for i := 0; i < steps; i++ {
+		t := "@t" + string(rune('0'+i))
+		symAssert(c.conn.Update(symSQLNull(), symSQLNoChange(), symSQLText(t)) == nil, "set-write-time-ok")
+		if i > 0 {
+			a, _ := vWriteTimeOf(c.m.sc.ctx)
+			symAssume(a > vPrevT)
+		}
+		vPrevT, _ = vWriteTimeOf(c.m.sc.ctx)
+		symAssert(vt.Begin() == nil, "begin-ok")
+		key := int64(1 + symChoice("key", 2))
+		switch symChoice("stmt", 3) {
+		case 0:
+			_, err := vt.Insert(symSQLInt(key), symSQLInt(int64(10*(i+1))), symSQLNull())
+			if err != nil {
+				symAssert(err == sqlite.SQLITE_CONSTRAINT_PRIMARYKEY, "only-constraint-errors")
+			}
+		case 1:
+			symAssert(vt.Update(symSQLInt(key), symSQLNoChange(), symSQLInt(int64(100*(i+1))), symSQLNoChange()) == nil, "update-ok")
+		case 2:
+			symAssert(vt.Delete(symSQLInt(key)) == nil, "delete-ok")
+		}
+		symAssert(vt.Sync() == nil, "sync-ok")
+		symAssert(vt.Commit() == nil, "commit-ok")
+		names, err := vt.common.Tree.Root.Roots()
+		symAssert(err == nil, "roots-ok")
+		keys, bs, err := vScanAll(vt)
+		symAssert(err == nil, "scan-ok")
+		now := vVer{names, keys, bs}
+		if ct == nil {
+			if len(names) == 0 {
+				continue
+			}
+			// create virtual table ch using s3db_changes(table='t', from='<version now>')
+			A = now
+			ct = &ChangesTable{table: vt.common, module: c.changes, fromVer: names}
+		}
+		gotK, gotB, ok := vChangesScan(ct)
+		symAssert(ok, "changes-query-succeeds")
+		vCheckChanges(A, now, gotK, gotB)
+		symReach("queried")
+	}
+	symReach("end")
+}
